@@ -227,8 +227,6 @@ partial def readVal : Sexp → R Val
       | .list [k, v] => do pure (← asBytes k, ← readVal v)
       | _ => fail "bad map entry"
     pure (.smap xs (← asBool ifc) (← asBool nl))
-  | .list (.atom "struct" :: .atom "T3" :: _) => pure (.opaque "T3 (a type with methods)")
-  | .list [.atom "ptr", .atom "T3", _] => pure (.opaque "*T3 (a type with methods)")
   | .list (.atom "struct" :: .atom tn :: fs) => do
     let xs ← fs.mapM fun q => match q with
       | .list [k, v] => do pure (← asBytes k, ← readVal v)
